@@ -9,7 +9,9 @@ case = dict(A, P, N, wtt_us, stop_us, ends, horizon_us, ack_type, msgs=[dict(at,
             dur = -1: never ends)
        sc["fmt"]: formatter / serializer of the broker; sc["mws"]: extra recording middlewares
        sc["late"], sc["shared_default"], m["task"]: tasks registered late / through the shared broker / on another broker
-            (recv_props.decorate_reg); sc["live"]: the real run_receiver_task coroutine runs for the whole scenario over a
+            (recv_props.decorate_reg); entries of sc["late"] with role designated / shadowed + shape: ONE task name registered with
+            two different functions (recv_props.decorate_dup) - the function find_task designates logs body.in / body.out, the other
+            one shadow.in / shadow.out; sc["live"]: the real run_receiver_task coroutine runs for the whole scenario over a
             listen() that fails at scripted points (recv_props.gen_live) - raw log: SESSION s (Receiver.listen called), LISTEN s, TAKE i s,
             FAULT s exc, no LTS trace; sc["live"]["supervisor"]: instead of run_receiver_task a supervisor of the driver runs ONE
             Receiver object over several listen() sessions (recv_props.gen_relisten) - raw log also LISTEN.FAILED s exc, RESUME n
@@ -21,13 +23,13 @@ import pickle
 import random
 import threading
 import types
-from typing import Any
+from typing import Annotated, Any
 
 import shims
 import vloop
 
 import taskiq.receiver.receiver as rmod
-from taskiq import TaskiqMiddleware
+from taskiq import Context, TaskiqDepends, TaskiqMiddleware, TaskiqState
 from taskiq.abc.broker import AckableMessage, AsyncBroker
 from taskiq.abc.result_backend import AsyncResultBackend
 from taskiq.brokers.shared_broker import async_shared_broker
@@ -534,23 +536,27 @@ def run_case(sc, opts):
                 raise Boom()
             return i
 
-        def body(style):
-            """a fresh task function (the same two shapes for every task of the scenario)"""
-            if style == "sync":
-                def ts(i: int, dur: int, out: str, extra: Any = None):
-                    log.add("body.in", i)
-                    try:
-                        if dur > 0:
-                            # a sync function that takes (virtual) time: only in a pool that can account for it (vloop.VPool)
-                            vloop.thread_vsleep(dur)
-                        return finish(i, out)
-                    finally:
-                        log.add("body.out", i)
+        def body(style, shape=None, shadowed=False):
+            """a fresh task function.  Without `shape`: one of the same two shapes for every task of the scenario.  With a shape
+            (recv_props.decorate_dup: the same task NAME registered twice with DIFFERENT functions) the function is written out
+            with the parameter list the shape describes (shaped_function).  `shadowed`: the registration of this function is
+            hidden by another one of the same name (AsyncBroker.find_task on the unchanged tree never hands it out); it logs
+            shadow.in / shadow.out instead of body.in / body.out - the oracle counts the entries of the function find_task
+            designates"""
+            t_in, t_out = ("shadow.in", "shadow.out") if shadowed else ("body.in", "body.out")
 
-                return ts
+            def ts(i: int, dur: int, out: str, extra: Any = None):
+                log.add(t_in, i)
+                try:
+                    if dur > 0 and not shadowed:
+                        # a sync function that takes (virtual) time: only in a pool that can account for it (vloop.VPool)
+                        vloop.thread_vsleep(dur)
+                    return finish(i, out)
+                finally:
+                    log.add(t_out, i)
 
             async def ta(i: int, dur: int, out: str, extra: Any = None):
-                log.add("body.in", i)
+                log.add(t_in, i)
                 try:
                     try:
                         if dur < 0:
@@ -566,9 +572,63 @@ def run_case(sc, opts):
                         raise
                     return finish(i, out)
                 finally:
-                    log.add("body.out", i)       # outermost finally: the body has REALLY ended
+                    log.add(t_out, i)       # outermost finally: the body has REALLY ended
 
-            return ta
+            core = ts if style == "sync" else ta
+            return core if shape is None else shaped_function(style, shape, core)
+
+        def provider(kind):
+            """what a custom dependency is resolved by: a plain function, an `async def`, a generator (set-up / tear-down)"""
+            if kind == "custom-sync":
+                def dep() -> int:
+                    return 7
+            elif kind == "custom-async":
+                async def dep() -> int:
+                    return 7
+            elif kind == "custom-gen":
+                def dep():
+                    yield 7
+            elif kind == "custom-asyncgen":
+                async def dep():
+                    yield 7
+            else:
+                raise AssertionError("scenario: unknown dependency kind %r" % (kind,))
+            return dep
+
+        def shaped_function(style, shape, core):
+            """a task function with the parameter list of `shape` = dict(hints: the three message parameters are annotated or
+            bare, opt_kw: a further optional parameter, varkw: a **catch-all, deps = [[parameter, kind, form]]: injected
+            parameters - kind state (TaskiqState) | context (Context) | custom-* (TaskiqDepends(provider)); form default
+            (`p: T = TaskiqDepends(...)`) | annotated (keyword-only `p: Annotated[T, TaskiqDepends(...)]`, no default)).  A real
+            `def` (written out and compiled), so that a call with a keyword it does not have / without one it requires fails
+            the way Python makes it fail.  What it does is `core` (the scenario's body)"""
+            ns = dict(Any=Any, Annotated=Annotated, TaskiqDepends=TaskiqDepends, TaskiqState=TaskiqState, Context=Context, core=core,
+                      __name__=__name__)       # (the function's __module__: this driver, like the built-in two)
+            ann = (": int", ": int", ": str") if shape.get("hints", True) else ("", "", "")
+            params = ["i%s" % ann[0], "dur%s" % ann[1], "out%s" % ann[2], "extra: Any = None"]
+            if shape.get("opt_kw"):
+                params.append("tag: str = 't'")
+            kwonly = []
+            for k, (pname, kind, form) in enumerate(shape.get("deps") or []):
+                if kind == "state":
+                    ty, dep = "TaskiqState", "TaskiqDepends()"
+                elif kind == "context":
+                    ty, dep = "Context", "TaskiqDepends()"
+                else:
+                    ns["prov%d" % k] = provider(kind)
+                    ty, dep = "int", "TaskiqDepends(prov%d)" % k
+                if form == "annotated":
+                    kwonly.append("%s: Annotated[%s, %s]" % (pname, ty, dep))
+                else:
+                    params.append("%s: %s = %s" % (pname, ty, dep))
+            if kwonly:
+                params += ["*"] + kwonly
+            if shape.get("varkw"):
+                params.append("**rest")
+            src = "%sdef task_function(%s):\n    return %score(i, dur, out, extra)\n" % (
+                "async " if style != "sync" else "", ", ".join(params), "await " if style != "sync" else "")
+            exec(compile(src, "<scenario task function>", "exec", dont_inherit=True), ns)
+            return ns["task_function"]
 
         ta = br.task(task_name="ta")(body("async"))
         ts = br.task(task_name="ts")(body("sync"))
@@ -576,7 +636,7 @@ def run_case(sc, opts):
         other = B()                 # another broker object of the process: what is registered on it is unknown to the worker
 
         def register(t):
-            fn = body(t["style"])
+            fn = body(t["style"], t.get("shape"), t.get("role") == "shadowed")
             if t["where"] == "shared":
                 tasks[t["name"]] = async_shared_broker.task(task_name=t["name"])(fn)
                 box["global_names"].append(t["name"])
@@ -588,7 +648,9 @@ def run_case(sc, opts):
                 other.task(task_name=t["name"])(fn)
             else:
                 raise AssertionError("scenario: unknown registration place %r" % (t["where"],))
-            log.add("REG", t["name"], t["where"])
+            log.add("REG", t["name"], t["where"] + (": the function find_task designates" if t.get("role") == "designated" else
+                                                    ": ANOTHER function under that name, hidden by the other registration"
+                                                    if t.get("role") == "shadowed" else ""))
 
         def register_when(when):
             for t in sc.get("late") or []:
